@@ -7,8 +7,21 @@ EXTENDS Integers, Sequences, TLC, Json, IOUtils
 Rec == ndJsonDeserialize(IOEnv.TRACE)
 VARIABLE l
 vars == <<l>>
+\* many threads cloning, querying and dropping one handle at once: afterwards the base
+\* handle is the only owner, nothing was freed while it lived, and dropping it frees the
+\* heap object exactly once (handles without a heap object never free anything)
+RaceWhy(r) ==
+  IF r.st # "ok" THEN "panic while threads cloned and dropped a time zone concurrently"
+  ELSE IF r.bad_answers # 0 THEN "a clone answered differently from (or compared unequal to) its origin under concurrency"
+  ELSE IF r.counted = 1 /\ r.strong_before # 1 THEN "a fresh heap-backed handle does not start with one owner"
+  ELSE IF r.counted = 1 /\ r.strong_after # 1 THEN "the reference count did not return to one after all clones were dropped"
+  ELSE IF r.frees_live # 0 THEN "the heap object was freed while a handle was alive"
+  ELSE IF r.frees_after # r.counted THEN "the heap object was not freed exactly once after its last handle"
+  ELSE ""
+
 Why(r) ==
-  IF r.st # "ok" THEN "panic with a fixed-offset time zone"
+  IF r.op = "race" THEN RaceWhy(r)
+  ELSE IF r.st # "ok" THEN "panic with a fixed-offset time zone"
   ELSE IF r.got # r.off THEN "fixed-offset handle does not reproduce its offset"
   ELSE IF r.off # 0 /\ r.fixed # r.off THEN "to_fixed_offset"
   ELSE IF r.tag # (IF r.off = 0 THEN 1 ELSE 3) THEN "pointer tag of a fixed offset"
